@@ -311,8 +311,28 @@ struct Barrier {
   }
 };
 
+// Forced preemption: restrict this process to the first `pin` CPUs of the set
+// it is allowed to run on (failure is ignored: it only weakens the stress).
+void pinTo(long pin) {
+  static bool done = false;
+  if (done || pin <= 0) return;
+  done = true;
+  cpu_set_t cur, want;
+  CPU_ZERO(&cur);
+  if (sched_getaffinity(0, sizeof cur, &cur) != 0) return;
+  CPU_ZERO(&want);
+  long n = 0;
+  for (int i = 0; i < CPU_SETSIZE && n < pin; i++)
+    if (CPU_ISSET(i, &cur)) {
+      CPU_SET(i, &want);
+      n++;
+    }
+  if (n > 0) (void)sched_setaffinity(0, sizeof want, &want);
+}
+
 template <typename T>
 void runCase(Ctx &c) {
+  pinTo(c.param("pin", 0));
   Rng g = c.rng();
   const Shared<T> S(g);
   static const int counts[] = {2, 3, 4, 8, 12, 16, 24, 32};
